@@ -364,6 +364,14 @@ let s_sched which g obs =
       | _ -> "bad:window-observation-shape" in
     (model, verdict)
   end else
+  if g "kind" = "joinwindow" then begin
+    let (model, pre, _post, eui) = Hist.run_joinwindow g obs in
+    (* one join-accept, and the stored session is the one it conveys (the rule of the forced join schedules) *)
+    let n_acc = match Judge.split_obs obs with
+      | Some (ds, _, _) -> List.length (List.filter (fun dstr -> match Util.bytes_of_hex (List.hd (String.split_on_char ':' dstr)) with b0 :: _ -> Util.int_of_n b0 / 32 = 1 | [] -> false) ds)
+      | None -> 0 in
+    (model, if n_acc <> 1 then "bad:window-join-request-not-answered-once" else Judge.judge_sched "C05" g obs pre eui)
+  end else
   if g "kind" = "window2" then begin
     let (model, pre, _post) = Hist.run_window2 g obs in
     (model, Judge.judge_window2 obs pre)
@@ -392,6 +400,7 @@ let register_all register =
   register "histC10" (s_hist Judge.judge_c10);
   register "histC11" (s_hist Judge.judge_c01);
   register "histC17" (s_hist Judge.judge_c17);
+  register "stream" (fun _g obs -> ("ok", if obs = "ok" then "ok" else "bad:application-stream-" ^ (List.hd (String.split_on_char ':' obs))));
   register "joinreq" s_joinreq;
   register "joinacc" s_joinacc;
   register "phy" s_phy;
